@@ -126,3 +126,61 @@ func VerifH_C12_literal_spellings() {
 	r3, f3 := vhOutcome("return --[[c]] ( ("+s1+") ) -- x\n", NilValue, NilValue, NilValue)
 	verifAssert(vhSameOutcome(r1, f1, r3, f3), "parentheses-comments-whitespace")
 }
+
+// long brackets: a long string / long comment of level k ends at the first
+// "]" "="*k "]" and nowhere else; the string's value is the raw content (minus
+// one leading newline).  Content bytes are symbolic over the alphabet that
+// matters to the scanner.
+func vhLongAlphabet(c byte) bool {
+	return c == ']' || c == '=' || c == '[' || c == 'a' || c == '\n' || c == '-'
+}
+
+// vhCloserAt reports whether s[i:] starts with a level-k closing bracket.
+func vhCloserAt(s string, i, k int) bool {
+	if i+k+1 >= len(s) || s[i] != ']' || s[i+k+1] != ']' {
+		return false
+	}
+	for j := 1; j <= k; j++ {
+		if s[i+j] != '=' {
+			return false
+		}
+	}
+	return true
+}
+
+var vhEqs = [3]string{"", "=", "=="}
+
+func VerifH_C12_long_brackets() {
+	level := verifChoose("level", 3)
+	maxn := 3
+	if verifTier() == 1 {
+		maxn = 4
+	}
+	n := verifChoose("n", maxn+1)
+	content := nondetString("content", n)
+	for i := 0; i < n; i++ {
+		verifAssume(vhLongAlphabet(content[i]))
+	}
+	closer := "]" + vhEqs[level] + "]"
+	body := content + closer
+	// stated restriction: the first closing bracket of this level in
+	// content+closer is the appended one
+	for i := 0; i < n; i++ {
+		verifAssume(!vhCloserAt(body, i, level))
+	}
+	want := content
+	if n > 0 && content[0] == '\n' {
+		want = content[1:]
+	}
+	comment := verifChoose("comment", 2) == 1
+	if comment {
+		verifReach("long-comment")
+		_, res, err := vhRunChunk("local x = 7 --[" + vhEqs[level] + "[" + body + " return x")
+		verifAssert(err == nil && len(res) == 1 && vhSameValue(res[0], IntValue(7)), "long-comment-ends-at-first-matching-closer")
+		return
+	}
+	verifReach("long-string")
+	_, res, err := vhRunChunk("return [" + vhEqs[level] + "[" + body + " .. 'z'")
+	verifAssert(err == nil, "valid-long-string-accepted")
+	verifAssert(err != nil || (len(res) == 1 && vhSameValue(res[0], StringValue(want+"z"))), "long-string-value-is-raw-content")
+}
